@@ -49,8 +49,13 @@ Drop      == /\ Lifecycle /\ ncmd > 0 /\ i' = Exited /\ ncmd' = MaxCmd /\ hist' 
 \* side-effect-free function, arming a (never delivered here) write watchpoint on the program's counter
 Extra(c)  == /\ Extras /\ i \in 1..N /\ i < TailPos /\ sg = 0
              /\ UNCHANGED <<i, ubp, nbk, sg>> /\ Log([cmd |-> c])
+\* C03/C05: selecting a caller's frame is a matter of presentation: the program does not move, and the
+\* commands that follow act on the real position of the thread, not on the selected frame
+Frame     == /\ Frames /\ i \in 1..N /\ i < TailPos /\ D(i) > 0 /\ nbk < MaxBk /\ nbk' = nbk + 1
+             /\ UNCHANGED <<i, ubp, sg>> /\ Log([cmd |-> "frame", k |-> 1])
 Cmd == \/ \E a \in BpCands : Break(a) \/ Remove(a)
        \/ \E c \in {"call", "watch"} : Extra(c)
+       \/ Frame
        \/ Start \/ Continue \/ Restart \/ Drop \/ SendSig
        \/ \E c \in {"stepi", "step", "next", "finish"} : StepCmd(c)
 Next == ncmd < MaxCmd /\ Cmd
